@@ -204,12 +204,29 @@ func getTaggedFieldValueMap(v reflect.Value) (map[string]any, error) {
 	result := make(map[string]any, size)
 
 	for i := 0; i < size; i++ {
-		key := parseTagName(rt.Field(i))
+		field := rt.Field(i)
+		valueField := reflect.Indirect(v).Field(i)
+		if field.Anonymous && len(parseTagName(field)) == 0 && mapping.Deref(field.Type).Kind() == reflect.Struct {
+			// 内嵌结构体（自身没有标签）的字段按各自的标签参与映射
+			inner, err := getTaggedFieldValueMap(valueField)
+			if err != nil {
+				return nil, err
+			}
+			if len(inner) == 0 {
+				return nil, nil
+			}
+
+			for key, value := range inner {
+				result[key] = value
+			}
+			continue
+		}
+
+		key := parseTagName(field)
 		if len(key) == 0 {
 			return nil, nil
 		}
 
-		valueField := reflect.Indirect(v).Field(i)
 		switch valueField.Kind() {
 		case reflect.Ptr:
 			if !valueField.CanInterface() {
